@@ -259,6 +259,7 @@ type connResult struct {
 //	hjg=1           the hijack handler waits for connServer.hjGate before it reads
 //	hj=1 hijack     hjn=1 HijackSetNoResponse     hjnr=1 HijackSetNoResponse(true) WITHOUT Hijack
 //	hcl=1           Response.Header.Set("Connection","close")
+//	ters=TAG        TimeoutErrorWithResponse(&ctx.Response) with body "so-far-TAG-...", then the response is rewritten in place
 //	ter=0|1         answer through TimeoutErrorWithResponse(resp) (1: resp.SetConnectionClose())
 //	stream=DECL:ACTUAL   SetBodyStream(reader of ACTUAL bytes, DECL)   (DECL=-1 unknown size)
 //	srd=p|e|1|z     the stream's reader: plain Read loop / final bytes together with io.EOF / one byte per Read /
@@ -495,6 +496,15 @@ func newConnServer(cfg connCfg) *connServer {
 				r.SetConnectionClose()
 			}
 			ctx.TimeoutErrorWithResponse(&r)
+		}
+		if v := q.Peek("ters"); v != nil {
+			// "send what I have so far": the handler hands its own ctx.Response to TimeoutErrorWithResponse and then keeps
+			// rewriting that response in place; the client must get the response as it was at the call
+			ctx.SetBodyString("so-far-" + string(v) + "-0123456789abcdef")
+			ctx.TimeoutErrorWithResponse(&ctx.Response)
+			ctx.Response.SetBodyString("LATE-" + string(v))
+			ctx.Response.Header.Set("X-Late", "1")
+			ctx.Response.SetStatusCode(299)
 		}
 		if q.Has("hjnr") { // HijackSetNoResponse without Hijack: must not leak into a later request
 			ctx.HijackSetNoResponse(true)
